@@ -86,6 +86,10 @@ def handle (s : St) (line : String) : St × String :=
   | ["setlast"] => match s.last with
     | some f => doSet s (some f)
     | none => (s, noTable)
+  | ["ctorobj"] =>   -- PPTable(records, fmt_obj=table.fmt, header=…, footer=…)
+    match s.tbl with
+    | some (t, a) => ({ s with tbl := some (mkTableFromFmt t.fmt t.records none none a.header a.footer, a) }, "ok")
+    | none => (s, noTable)
   | ["ctor", f] => doCtor s (parseCps f)
   | ["ctorlast"] => match s.last with
     | some f => doCtor s (some f)
